@@ -165,6 +165,9 @@ META = (META[0] + ' MEMSHORT (a bytewise memcmp / memcpy / memmove over elements
 META = (META[0] + ' TYPEDDEF (an overload without functor delegates with a transparent functor or one fixed to the element type, never one fixed to another type parameter such as the accumulator).', META[1])
 
 
+META = (META[0] + ' EMPTYQ (all_of / none_of answer true and any_of false on an early return for the empty range).', META[1])
+
+
 def run(chk, tier):
     db = D.load("checks")
     from ..rules import params as _PR
@@ -183,6 +186,9 @@ def run(chk, tier):
     if _X10.mem_shortcut_area(chk, db, ['_algorithm/', '_numeric/']) < 100:      # MEMSHORT (zero calls expected on the library)
         chk.analysis_broken('MEMSHORT: fewer than 100 function bodies scanned (floor 100)')
     _X10.positive_controls(chk, D, ('MEMSHORT',))
+    from ..rules import extra12 as _X12
+    if _X12.empty_quantifier_area(chk, db, ['_algorithm/']) < 3:      # EMPTYQ
+        chk.analysis_broken('EMPTYQ: all_of / any_of / none_of not found (floor 3)')
     if _X10.typed_default_area(chk, db, ['_algorithm/', '_numeric/']) < 20:      # TYPEDDEF
         chk.analysis_broken('TYPEDDEF: fewer than 20 delegations with a functor object built on the spot (floor 20)')
     from ..rules import extra9 as _X9
